@@ -68,18 +68,17 @@ func runC16(c *core.Ctx) {
 		c.ExpectAtLeast("announces.Add sites in processNotification", len(adds), 1)
 		res := core.Points(pn.CallsTo(fetT + ".rescheduleFetch"))
 		c.Need(len(res) >= 1, "processNotification calls rescheduleFetch")
-		// "idle at entry" variables: defined before any Add as X == 0 with X = announces.Len() or len(fetching)
+		// "idle at entry" variables: defined before any Add as "X is zero" with X = announces.Len() or
+		// len(fetching), in any spelling (X == 0, 0 == X, X < 1, !(X > 0) …)
 		idle := map[*types.Var]bool{}
 		for _, a := range assignments(pn) {
 			v := varOf(pn, a.LHS)
 			if v == nil || a.RHS == nil {
 				continue
 			}
-			be, ok := ast.Unparen(a.RHS).(*ast.BinaryExpr)
-			if !ok || be.Op != token.EQL || !core.IsConstInt(pn.Info(), be.Y, 0) {
-				continue
-			}
-			if !(isAnnLen(pn, be.X) || isFetchingLen(pn, be.X)) {
+			def := core.Fact{Expr: a.RHS, Truth: true}
+			if !(c16SizeFact(pn, def, func(e ast.Expr) bool { return isAnnLen(pn, e) }, true) ||
+				c16SizeFact(pn, def, func(e ast.Expr) bool { return isFetchingLen(pn, e) }, true)) {
 				continue
 			}
 			before := true
@@ -93,19 +92,12 @@ func runC16(c *core.Ctx) {
 			}
 		}
 		allowed := func(ft core.Fact) bool {
-			cm, ok := core.NormCmp(ft)
-			if !ok {
-				return false
-			}
 			// not idle at entry
-			if cm.R == nil && cm.Op == token.NEQ && idle[varOf(pn, cm.L)] {
+			if cm, ok := core.NormCmp(ft); ok && cm.R == nil && cm.Op == token.NEQ && idle[varOf(pn, cm.L)] {
 				return true
 			}
 			// announce set empty now
-			if cm.R != nil && cm.Op == token.EQL && isAnnLen(pn, cm.L) && core.IsConstInt(pn.Info(), cm.R, 0) {
-				return true
-			}
-			return false
+			return c16SizeFact(pn, ft, func(e ast.Expr) bool { return c16AnnLenNow(pn, e, annF) }, true)
 		}
 		for _, ad := range adds {
 			path, found := core.PathQuery{F: pn, From: ad.Pt, FromAfter: true, Avoid: core.PointSet(res...), AvoidEdge: allDisjunctsMatch(pn, allowed), TargetExit: true}.Find()
@@ -173,8 +165,7 @@ func runC16(c *core.Ctx) {
 		resets := core.Points(rf.CallsTo("time.Timer.Reset"))
 		c.Need(len(resets) >= 1, "rescheduleFetch calls Timer.Reset")
 		emptyNow := func(ft core.Fact) bool {
-			cm, ok := core.NormCmp(ft)
-			return ok && cm.R != nil && cm.Op == token.EQL && isAnnLen(rf, cm.L) && core.IsConstInt(rf.Info(), cm.R, 0)
+			return c16SizeFact(rf, ft, func(e ast.Expr) bool { return c16AnnLenNow(rf, e, annF) }, true)
 		}
 		path, found = core.PathQuery{F: rf, From: rf.Entry(), Avoid: core.PointSet(resets...), AvoidEdge: allDisjunctsMatch(rf, emptyNow), TargetExit: true}.Find()
 		c.Check(!found, "rescheduleFetch|resets the timer when announcements are pending", "T3 PostDominates (refined)", rf.Pos(), "every return passes Timer.Reset or the announce-set-empty edge", "rescheduleFetch can return without arming the timer although announcements are pending: "+rf.DescribePath(path))
@@ -381,4 +372,71 @@ func runC16(c *core.Ctx) {
 		}
 		c.Check(okNI, "no-longer-interesting ids are forgotten", "T7 Pairing", lp.Pos(), "ids missing from the interesting set are passed to forgetHash", "ids that stopped being interesting are kept and re-requested")
 	})
+}
+
+// c16SizeFact: does the fact say that the non-negative integer quantity recognised by atom is zero
+// (zero=true) or non-zero (zero=false)? Decided on the linear normal form, so operand order and the
+// spelling of the test do not matter: n == 0, 0 == n, n <= 0, n < 1, !(n > 0), !(n != 0) are one fact.
+// (Candidate for core: a "size is zero" fact matcher.)
+func c16SizeFact(f *core.FuncInfo, ft core.Fact, atom func(ast.Expr) bool, zero bool) bool {
+	namer := func(e ast.Expr) string {
+		if atom(core.StripConv(f.Info(), e)) {
+			return "n"
+		}
+		return ""
+	}
+	lc, ok := core.NormLinCmp(f.Info(), ft, namer)
+	if !ok {
+		return false
+	}
+	if zero {
+		return lc.Equal(core.ParseLinCmp("n == 0")) || lc.Equal(core.ParseLinCmp("n <= 0"))
+	}
+	return lc.Equal(core.ParseLinCmp("n != 0")) || lc.Equal(core.ParseLinCmp("1 - n <= 0"))
+}
+
+// c16AnnLenNow: e denotes the current size of the announce set at the place where it is used: either
+// the call <annField>.Len() itself, or a single-definition local holding that call's result when
+// nothing that can change the announce set (Add/Remove/RemoveOldest/Purge on it, directly or in a
+// callee) lies between the definition and the use.
+func c16AnnLenNow(f *core.FuncInfo, e ast.Expr, annField string) bool {
+	isLen := func(x ast.Expr) bool {
+		call, ok := ast.Unparen(x).(*ast.CallExpr)
+		if !ok || calleeName(f, call) != "utils/wlru.Cache.Len" {
+			return false
+		}
+		sel, ok := ast.Unparen(call.Fun).(*ast.SelectorExpr)
+		return ok && fieldNameOf(f, sel.X) == annField
+	}
+	e = ast.Unparen(e)
+	if isLen(e) {
+		return true
+	}
+	id, ok := e.(*ast.Ident)
+	if !ok {
+		return false
+	}
+	v, _ := f.Info().ObjectOf(id).(*types.Var)
+	d := singleDef(f, v)
+	if d == nil || !isLen(d) {
+		return false
+	}
+	as := assignsToVar(f, v)
+	use, okUse := f.PointOf(id)
+	if len(as) != 1 || !okUse {
+		return false
+	}
+	muts := f.SitesMay(func(cs *core.CallSite) bool {
+		switch cs.Name {
+		case "utils/wlru.Cache.Add", "utils/wlru.Cache.Remove", "utils/wlru.Cache.RemoveOldest", "utils/wlru.Cache.Purge":
+			return fieldNameOf(cs.F, cs.Recv()) == annField
+		}
+		return false
+	}, 3)
+	for _, m := range muts {
+		if (m == as[0].Pt || f.CanReach(as[0].Pt, m)) && (m == use || f.CanReach(m, use)) {
+			return false
+		}
+	}
+	return true
 }
